@@ -42,17 +42,17 @@ Print Assumptions C01_no_dispose_while_guarded.
 
 (** non-vacuity: HP(2,2,8,classic).  Thread 0 publishes object 4 and protects it; thread 1 unlinks and retires it
     and scans twice; thread 0 clears its guard between the two scans.  The first scan keeps the cell (its
-    [g_scan_end] event lists 4), the second one disposes it: event 61 is "dispose 4" by thread 1, in the scan
-    that began at event 52, after the first scan ended at event 45. *)
+    [g_scan_end] event lists 4), the second one disposes it: event 67 is "dispose 4" by thread 1, in the scan
+    that began at event 58, after the first scan ended at event 51. *)
 Definition C01_example :=
   Hp.run_case [2;2;8;0;1;50] [[[1];[6;0;4];[3;0;0];[5;0]]; [[1];[6;0;0];[8];[8]]]
     (repeat 0%nat 10 ++ repeat 1%nat 19 ++ repeat 0%nat 4 ++ repeat 1%nat 40) 1000.
 
 Example C01_guarded_object_survives_then_is_disposed :
   snd C01_example = true /\
-  nth_error (fst C01_example) 45 = Some (1%nat, ev_scan_end 1 [4]) /\
-  nth_error (fst C01_example) 61 = Some (1%nat, ev_dispose 4) /\
-  last_sb (firstn 61 (fst C01_example)) 1 = Some 52%nat /\
+  nth_error (fst C01_example) 51 = Some (1%nat, ev_scan_end 1 [4]) /\
+  nth_error (fst C01_example) 67 = Some (1%nat, ev_dispose 4) /\
+  last_sb (firstn 67 (fst C01_example)) 1 = Some 58%nat /\
   cnt "dispose" 4 (fst C01_example) = 1 /\ cnt "retire" 4 (fst C01_example) = 1.
 Proof. vm_compute. repeat split; reflexivity. Qed.
 
@@ -134,30 +134,30 @@ Definition C01_guarded_ptr_live_statement : Prop :=
 
 (** A copy of a guarded pointer into a LOWER slot is not a guard of its own (known finding
     "hp-guard-copy-downward", reproduced on the real library: corpus/C01/010-copy-down.json).
-    HP(2,2,8,classic).  Thread 0: publish object 4; protect it in slot 1 ("protected" at event 16); copy slot 1
-    into slot 0 ("copied" at event 46); clear slot 1; ...; touch through slot 0 at event 64.  Thread 1: unlink and
-    retire object 4, scan (begun at event 35): it reads thread 0's slot 0 before the copy and slot 1 after the
-    clear, and disposes object 4 at event 54 -- while slot 0 of record 0 holds it and thread 0 uses it afterwards.
+    HP(2,2,8,classic).  Thread 0: publish object 4; protect it in slot 1 ("protected" at event 20); copy slot 1
+    into slot 0 ("copied" at event 52); clear slot 1; ...; touch through slot 0 at event 72.  Thread 1: unlink and
+    retire object 4, scan (begun at event 41): it reads thread 0's slot 0 before the copy and slot 1 after the
+    clear, and disposes object 4 at event 60 -- while slot 0 of record 0 holds it and thread 0 uses it afterwards.
     (No contradiction with the theorems: slot 0 was set after the scan began, slot 1 did not hold it to the end.) *)
 Definition C01_copy_down_example :=
   Hp.run_case [2;2;8;0;1;50] [[[1];[6;0;4];[3;1;0];[10;0;1];[5;1];[3;1;0];[9;0]]; [[1];[6;0;0];[8]]]
     (repeat 0%nat 10 ++ repeat 1%nat 16 ++ repeat 0%nat 4 ++ repeat 1%nat 10) 1000.
 Example C01_copy_down_unsafe :
   let tr := fst C01_copy_down_example in
-  nth_error tr 16 = Some (0%nat, EvCli "protected" [1; 4]) /\
-  nth_error tr 46 = Some (0%nat, EvCli "copied" []) /\
-  nth_error tr 54 = Some (1%nat, ev_dispose 4) /\
-  last_sb (firstn 54 tr) 1 = Some 35%nat /\
-  slot_at (firstn 55 tr) 0 0 = 4 /\
-  nth_error tr 64 = Some (0%nat, EvCli "touch" [0; 4]).
+  nth_error tr 20 = Some (0%nat, EvCli "protected" [1; 4]) /\
+  nth_error tr 52 = Some (0%nat, EvCli "copied" []) /\
+  nth_error tr 60 = Some (1%nat, ev_dispose 4) /\
+  last_sb (firstn 60 tr) 1 = Some 41%nat /\
+  slot_at (firstn 61 tr) 0 0 = 4 /\
+  nth_error tr 72 = Some (0%nat, EvCli "touch" [0; 4]).
 Proof. vm_compute. repeat split; reflexivity. Qed.
 
 (** The in-place scan needs [retire_once]: HP(1,2,3,in-place), one thread guards object 4 and (client error)
     retires it twice; lower_bound marks one of the two equal cells, the other one is disposed while guarded. *)
 Example C01_inplace_double_retire :
   let tr := fst (Hp.run_case [1;2;3;1;1;50] [[[1];[4;0;4];[7;4];[7;4];[8];[9;0]]] [] 1000) in
-  cnt "retire" 4 tr = 2 /\ nth_error tr 27 = Some (0%nat, ev_dispose 4) /\
-  slot_at (firstn 28 tr) 0 0 = 4 /\ slot_at (firstn 12 tr) 0 0 = 4.
+  cnt "retire" 4 tr = 2 /\ nth_error tr 28 = Some (0%nat, ev_dispose 4) /\
+  slot_at (firstn 29 tr) 0 0 = 4 /\ slot_at (firstn 13 tr) 0 0 = 4.
 Proof. vm_compute. repeat split; reflexivity. Qed.
 
 (** The retired arrays never overflow when thread_list_ holds at most P records, R > H*P and no object is retired
